@@ -33,6 +33,9 @@ type sessIn struct {
 	ServerName string     `json:"servername,omitempty"`
 	Conns      []sessConn `json:"conns"`
 	Tag        string     `json:"tag,omitempty"` // generator label (what is being varied)
+	// Patient: the scripted server sends its answers item by item and notes how many items it had sent when each
+	// client request showed up (connScript.PeekMs): "each request only after the previous step was confirmed"
+	Patient bool `json:"patient,omitempty"`
 }
 
 // tlsOutcome: model of crypto/tls as configured by XMPPTransport.StartTLS
@@ -139,6 +142,26 @@ func itemSx(it sItem) Sx {
 	}
 }
 
+// sessInputObsSx: the model input plus, per connection, the observed "items sent before each request" (the model
+// answers with the same number when it is at least what the client must have consumed by then).
+func sessInputObsSx(in sessIn, obs Sx) Sx {
+	x := sessInputSx(in)
+	var sbs []Sx
+	for _, co := range obs.L {
+		var l []Sx
+		if len(co.L) >= 1 {
+			for _, rq := range co.L[0].L {
+				if len(rq.L) == 3 {
+					l = append(l, rq.L[2])
+				}
+			}
+		}
+		sbs = append(sbs, LS(l))
+	}
+	x.L = append(x.L, LS(sbs))
+	return x
+}
+
 func sessInputSx(in sessIn) Sx {
 	ms := []Sx{}
 	for _, m := range in.mechs() {
@@ -229,7 +252,11 @@ func runSessionRaw(in sessIn) (*sessObs, Sx) {
 		if c.NoDial {
 			continue
 		}
-		scripts = append(scripts, connScript{Groups: c.Groups, Cert: c.Cert, IdleDropMs: 400, StallDropMs: 3000})
+		sc := connScript{Groups: c.Groups, Cert: c.Cert, IdleDropMs: 400, StallDropMs: 3000}
+		if in.Patient {
+			sc.PeekMs = 4
+		}
+		scripts = append(scripts, sc)
 	}
 	srv, err := startScriptedServer(scripts)
 	if err != nil {
@@ -405,7 +432,12 @@ func runSessionRaw(in sessIn) (*sessObs, Sx) {
 				continue // post-session traffic
 			}
 			if x, ok := reqSx(e); ok {
-				reqs = append(reqs, L(x, B(e.Secure)))
+				// third component: how many server items had been sent when the request showed up (-1: not measured)
+				sb := -1
+				if in.Patient {
+					sb = e.Items
+				}
+				reqs = append(reqs, L(x, B(e.Secure), Zi(sb)))
 			}
 		}
 		conns = append(conns, L(LS(reqs), errSx(cerr), snapSx(snap), LS(answers)))
